@@ -722,7 +722,8 @@ func Spec() *run.Spec {
 		MinObserved: map[string]int64{
 			"cube_configurations": 250, "cube_configurations_in_last_cell_of_a_block": 200,
 			"active_cells_on_block_face": 1000, "active_cells_on_block_edge": 50, "active_cells_on_block_corner": 5,
-			"cases_with_negative_block_coordinates": 20, "long_capsules_over_3_or_more_blocks": 2, "entry_points": 3, "field_builders": 3,
+			"cases_with_negative_block_coordinates": 20, "long_capsules_over_3_or_more_blocks": 1, "entry_points": 3, "field_builders": 3,
+			"directed_seam_cases": 10, "cases_with_seam_weld_trigger": 10, "fieldmarch_cube_configurations": 250,
 		},
 		Phases: []run.Phase{
 			{Name: "analytic", Cases: func(t string) int {
